@@ -8,8 +8,9 @@ enqueues the request carrying it for every registered connection; the queue merg
 which takes the snapshot of the request enqueued last.  `pipeline_newest_snapshot`: in every
 reachable state of the composed system, for every registered connection, the request that will be
 handed to its next push - the one waiting in the queue (pending, or parked while the connection is
-being pushed), or, if nothing is waiting, the one in its parked push event - carries the **newest**
-snapshot, `p.version`.  (So a connection can only ever be pushed with an older snapshot if a newer
+being pushed), or, if nothing is waiting, the one in its parked push event - carries a snapshot that is
+**not older than the newest one `StartPush` has used**, `p.version` (it is exactly that one unless a
+`ProxyUpdate` read the next context in the moment between its publication and its `StartPush`).  (So a connection can only ever be pushed with an older snapshot if a newer
 request is already waiting behind it; at rest the last push of every connection used the newest.)
 
 Assumes what the composition assumes: `Push` calls do not overlap (`debounced_pushes_sequential`;
@@ -34,7 +35,7 @@ theorem holderRefL_congr (q q' : QState) (l l' : List Flight) (c : Conn) (h1 : m
 
 def NS (p : Pipe) : Prop :=
   p.snd.q.down = false → ∀ c, c ∈ p.conns → ∀ r, holderRef p.snd c = some r →
-    pushOf p.snd.q.heap (some r) = some p.version
+    ∃ n, pushOf p.snd.q.heap (some r) = some n ∧ p.version ≤ n
 
 theorem pushOf_stable {h h' : Heap} (hle : h.le h') (hwf : h.wf = true) (r : Option Ref)
     (hr : okRef h.reqs.length r = true) : pushOf h' r = pushOf h r := by
@@ -152,6 +153,66 @@ theorem ns_step (p p' : Pipe) (e : PEv) (hi : PInv p) (hn : NS p) (hok : e.ok) (
     · cases hs : stepD p.opts p.db e with
       | none => simp [hs] at h
       | some db' => simp only [hs, Option.some.injEq] at h; subst h; exact hn
+  | proxyUpdate c ver =>
+    simp only [stepP] at h
+    split at h
+    · rename_i hg
+      simp only [Option.some.injEq] at h; subst h
+      intro hd c' hcm r hr
+      have e := startPush_spec p.snd.q hi.sI.qinv hi.sI.nn (puView ver) [c]
+      have hd' : p.snd.q.down = false := by rw [← e.down]; exact hd
+      have hle1 : p.snd.q.heap.le (allocView p.snd.q.heap (puView ver)) := alloc_le _ _
+      have hi1 : Inv { p.snd.q with heap := allocView p.snd.q.heap (puView ver) } :=
+        inv_heap_grow p.snd.q _ hi.sI.qinv hle1 (alloc_wf _ _ hi.sI.qinv.wf)
+      have hr1 : p.snd.q.heap.reqs.length <
+          ({ p.snd.q with heap := allocView p.snd.q.heap (puView ver) } : QState).heap.reqs.length := by
+        simp [alloc_len]
+      obtain ⟨hp1, hp2⟩ := enqueueAll_push { p.snd.q with heap := allocView p.snd.q.heap (puView ver) }
+        hi1 hi.sI.nn hd' p.snd.q.heap.reqs.length hr1 [c]
+      by_cases hcc : c' = c
+      · subst hcc
+        have hpush := hp1 c' (by simp)
+        have hnew : pushOf (allocView p.snd.q.heap (puView ver)) (some p.snd.q.heap.reqs.length) = some ver := by
+          simp [pushOf, alloc_view, puView]
+        rw [hnew] at hpush
+        simp only [holderRef, holderRefL] at hr
+        cases hm : mailRef (enqueueAll { p.snd.q with heap := allocView p.snd.q.heap (puView ver) }
+            p.snd.q.heap.reqs.length [c']) c' with
+        | none => rw [hm, pushOf_nil] at hpush; cases hpush
+        | some r' =>
+          rw [hm] at hr hpush
+          simp only [Option.some.injEq] at hr
+          subst hr
+          exact ⟨ver, hpush, hg.1⟩
+      · have hm : mailRef (enqueueAll { p.snd.q with heap := allocView p.snd.q.heap (puView ver) }
+            p.snd.q.heap.reqs.length [c]) c' = mailRef p.snd.q c' := by
+          rw [hp2 c' (by simp [hcc])]; rfl
+        have hh : holderRef p.snd c' = some r := by
+          simp only [holderRef, holderRefL, hm] at hr ⊢; exact hr
+        obtain ⟨n, hn1, hn2⟩ := hn hd' c' hcm r hh
+        refine ⟨n, ?_, hn2⟩
+        have hok : okRef p.snd.q.heap.reqs.length (some r) = true := by
+          simp only [holderRef, holderRefL] at hh
+          cases hmm : mailRef p.snd.q c' with
+          | some m =>
+            rw [hmm] at hh; simp only [Option.some.injEq] at hh; subst hh
+            have := mailRef_ok p.snd.q hi.sI.qinv c'; rw [hmm] at this; exact this
+          | none =>
+            rw [hmm] at hh
+            cases hfr : flightRef p.snd.parked c' with
+            | none => simp [hfr] at hh
+            | some fr =>
+              simp only [hfr, Option.bind_some, id] at hh
+              unfold flightRef at hfr
+              cases htk : takeFlight c' p.snd.parked with
+              | none => simp [htk] at hfr
+              | some pr =>
+                have hfm : pr.1 ∈ p.snd.parked := (takeFlight_spec c' _ pr.1 pr.2 htk).2.mem_iff.mpr (by simp)
+                have : fr = pr.1.2 := by simp [htk] at hfr; exact hfr.symm
+                have hv := hi.fl pr.1 hfm
+                rw [← this, hh] at hv; exact hv
+        rw [pushOf_stable e.le hi.sI.qinv.wf _ hok]; exact hn1
+    · cases h
   | startPush =>
     simp only [stepP] at h
     cases ht : p.toStart with
@@ -183,7 +244,7 @@ theorem ns_step (p p' : Pipe) (e : PEv) (hi : PInv p) (hn : NS p) (hok : e.ok) (
         rw [hm] at hr hpush
         simp only [Option.some.injEq] at hr
         subst hr
-        exact hpush
+        exact ⟨p.version + 1, hpush, Nat.le_refl _⟩
   | snd e =>
     simp only [stepP] at h
     split at h
@@ -282,9 +343,16 @@ theorem ns_step (p p' : Pipe) (e : PEv) (hi : PInv p) (hn : NS p) (hok : e.ok) (
                   (by simp [mailRef, procOf, e1, e2]) (flightRef_snoc_other _ _ _ _ hcc)] at hr'
                 exact hn hd c' hc' r' hr'
           · cases hs
+        | loopReturn c =>
+          simp only [hs, Option.some.injEq] at h; subst h
+          simp only [stepS] at hs; split at hs
+          · cases hs
+          · simp only [Option.some.injEq] at hs; subst hs; exact neutral rfl rfl rfl rfl id
         | deliver c =>
           simp only [hs, Option.some.injEq] at h; subst h
           simp only [stepS] at hs
+          split at hs
+          · cases hs
           cases htk : takeFlight c p.snd.parked with
           | none => simp [htk] at hs
           | some pr =>
@@ -391,7 +459,7 @@ theorem ns_run (p p' : Pipe) (es : List PEv) (hi : PInv p) (hn : NS p) (hok : PE
 theorem pipeline_newest_snapshot (o : DOpts) (h : Heap) (hwf : h.wf = true) (cap : Nat) (cs : List Conn)
     (es : List PEv) (hok : PEvsOk es) (p : Pipe) (hr : runP (Pipe.init o h cap cs) es = some p)
     (hd : p.snd.q.down = false) (c : Conn) (hc : c ∈ p.conns) (r : Ref) (hh : holderRef p.snd c = some r) :
-    pushOf p.snd.q.heap (some r) = some p.version :=
+    ∃ n, pushOf p.snd.q.heap (some r) = some n ∧ p.version ≤ n :=
   ns_run _ p es (pinv_init o h hwf cap cs) (ns_init o h cap cs) hok hr hd c hc r hh
 
 /-! ## Non-vacuity: after the second push round of `exPipeEvs` connection 1 (not yet pushed) has the
